@@ -182,6 +182,8 @@ def make (c):
             else:
                 forms.append ([1, int (rng.choice (alltags))])
         forms = [list (x) for x in dict.fromkeys (tuple (f) for f in forms)]
+        if k == 0 and len (alltags) > 1 and np.random.default_rng ([c ['seed'], 154, c ['i']]).random () < 0.15:
+            forms = [['all', int (t)] for t in alltags]     # every object named by its tag: the load sits on every pulse of the antenna
         if rng.random () < 0.25:
             forms.append (list (forms [0]))     # the same attachment twice: the load counts twice
         if kind == 'z':
@@ -216,6 +218,10 @@ def make (c):
         # a load attached pulse by pulse to all pulses of one object but one (resolved in check (),
         # where the number of pulses of the object is known)
         spec ['partial'] = dict (tag = int (rng.choice (alltags)), skip = str (rng.choice (['first', 'last'])), z = [float (10 ** rng.uniform (0, 2)), float (rng.uniform (-50, 50))])
+    r3 = np.random.default_rng ([c ['seed'], 153, c ['i']])
+    if spec.get ('sc') and r3.random () < 0.3:
+        # the same target scaled twice (inches to metres, then a correction)
+        spec ['sc'] = list (spec ['sc']) + [[float (np.round (10 ** r3.uniform (-0.1, 0.1), 4)), spec ['sc'][-1][1]]]
     spec ['style'] = style
     spec ['attach_shuffle'] = int (rng.integers (0, 1000))
     rd = np.random.default_rng ([c ['seed'], 151, c ['i']])
